@@ -65,6 +65,8 @@ class C13(Prop):
             if which == 'end_of_month' and rng.random() < 0.5:
                 c['stop'] = c['start'] + rng.randint(20, 800) * DAY
                 c['stop'] = (c['stop'] // DAY) * DAY + 86340
+            if rng.random() < 0.15:
+                c['naive'] = True         # start / end handed over without a time zone
             cases.append(c)
         if tier == 'thorough':
             for a in range(0, 70, 2):
@@ -85,7 +87,7 @@ class C13(Prop):
 
     def judge(self, c, impl, mod):
         j = Judgement()
-        j.key = (c['which'], c['start'], c['stop'], c['pm'], c['weekday'])
+        j.key = (c['which'], c['start'], c['stop'], c['pm'], c['weekday'], bool(c.get('naive')))
         valid_wd = c['which'] != 'weekly' or c['weekday'].upper() in WD
         if impl[0] == 'err' or mod[0] == 'err':
             mi = mod[1] if mod[0] == 'err' else 'ok'
@@ -101,6 +103,10 @@ class C13(Prop):
             return j
         if not valid_wd:
             j.failures.append('unknown weekday %r was accepted' % c['weekday'])
+            return j
+        if impl[1] and isinstance(impl[1][0], list):
+            j.failures.append('%s schedule for a start/end without time zone is not stamped in UTC: %s' % (c['which'], impl[1][:2]))
+            j.nontrivial = True
             return j
         if mod[1] != impl[1]:
             j.disagreements.append('schedule model=%s impl=%s' % (mod[1][:6], impl[1][:6]))
